@@ -35,6 +35,12 @@ func c20GenKill(rt *rapid.T) c20Case {
 			op.KB = rapid.SampledFrom(bigSizes).Draw(rt, "kb")
 			bigLeft--
 		}
+		if op.Kind == "conf" && op.KB == 0 && rapid.IntRange(0, 7).Draw(rt, "exactP") == 0 {
+			op.Exact = rapid.SampledFrom(c20Boundaries).Draw(rt, "boundary") + rapid.IntRange(-1, 1).Draw(rt, "delta")
+		}
+		if rapid.IntRange(0, 3).Draw(rt, "oldP") == 0 {
+			op.AgeH = rapid.SampledFrom([]int{2, 48}).Draw(rt, "ageH") // the file about to be replaced is old
+		}
 		c.Ops = append(c.Ops, op)
 	}
 	c.XDev = rapid.Bool().Draw(rt, "xdev") // half of the kills with TMPDIR on another file system
@@ -87,6 +93,9 @@ func c20CheckKill(t vh.Fataler, rec *vh.Rec, root string, c c20Case) {
 	switch {
 	case inFlight:
 		classes = append(classes, "kill-in-flight", "in-flight:"+c.Ops[res.lastStart].Kind)
+		if c.Ops[res.lastStart].AgeH > 0 {
+			defer rec.Class("in-flight-over-back-dated-file")
+		}
 		if c20MultiMB(cur, prev) {
 			classes = append(classes, "in-flight-multiMB")
 		} else {
